@@ -27,7 +27,7 @@ def path_term(b, op, depth=0):
     if not base[1] and len(ds) == 1 and ds[0][0] == 'call' and 'q' in ds[0][1]['callee'] and ds[0][1]['args'] and depth < 6 and \
             callee_q(ds[0][1]).split('::')[-1] in ('deref', 'as_ref', 'as_path', 'borrow', 'clone', 'to_path_buf', 'to_owned', 'as_os_str', 'into', 'from'):
         return path_term(b, ds[0][1]['args'][0], depth + 1)
-    root = b.name(base[0])
+    root = b.name(base[0]) if (b.locals[base[0]].get('name') and b.locals[base[0]].get('user')) or base[0] <= b.arg_count else 'tmp'
     if base[0] == 1 and b.raw['coroutine'] and base[1]:
         # captured parameter of an async fn: name it by the debug info
         idx = base[1][0][1]
@@ -76,7 +76,28 @@ def sym(b, l, depth=0):
     return None
 
 
-def _reach(b, start, goal, avoid):
+def _builder_aliases(b, d):
+    """locals through which one OpenOptions value is reached: the result of new(), what it is moved into, and the `&mut Self`
+    every setter hands back"""
+    al = {d}
+    grew = True
+    while grew:
+        grew = False
+        for bi in b.live:
+            for st in b.blocks[bi]['stmts']:
+                if st['k'] == 'assign' and not st['pl']['p'] and st['pl']['l'] not in al and st['rv']['k'] == 'use' and st['rv']['op']['k'] in ('copy', 'move') \
+                        and not st['rv']['op']['pl']['p'] and st['rv']['op']['pl']['l'] in al:
+                    al.add(st['pl']['l']); grew = True
+            t = b.blocks[bi]['term']
+            if t['k'] == 'call' and 'q' in t['callee'] and is_oo(callee_q(t)) and callee_q(t).split('::')[-1] in BUILDER and t['args'] and not t['dest']['p'] \
+                    and t['dest']['l'] not in al and t['args'][0]['k'] in ('copy', 'move'):
+                base = b.base_of(t['args'][0])
+                if base and base[0] in al:
+                    al.add(t['dest']['l']); grew = True
+    return al
+
+
+def _reach(b, start, goal, avoid, limit=60):
     seen, w = set(), [start]
     while w:
         x = w.pop()
@@ -88,7 +109,7 @@ def _reach(b, start, goal, avoid):
         if x == avoid:
             continue
         w.extend(succs(b.blocks[x]['term']))
-        if len(seen) > 60:
+        if len(seen) > limit:
             return False
     return False
 
@@ -211,6 +232,15 @@ def chains(b):
                     w.append(s)
             if len(seen) > 80:
                 break
+        aliases = _builder_aliases(b, nt['dest']['l']) if not nt['dest']['p'] else set()
+
+        def mine(t_):
+            if not aliases or not t_['args'] or t_['args'][0]['k'] not in ('copy', 'move'):
+                return True
+            base_ = b.base_of(t_['args'][0])
+            return bool(base_) and base_[0] in aliases
+        reached_opens = set()
+        named_builder = any(b.locals[a_].get('user') and b.locals[a_].get('name') for a_ in aliases)
         inputs = set()
         for x in region:
             for st in b.blocks[x]['stmts']:
@@ -219,6 +249,14 @@ def chains(b):
                     k = field_key(b, st['rv']['op']['pl'])
                     if k:
                         inputs.add(k)
+        for x in region:
+            for st in b.blocks[x]['stmts']:
+                if st['k'] == 'assign' and st['rv']['k'] == 'agg' and st['rv'].get('ak') == 'tuple':
+                    for o in st['rv']['ops']:
+                        if o['k'] == 'copy' and o['pl']['p'] and b.ty(o['pl']['p'][-1].get('ty', -1)).get('k') == 'bool' if o['k'] == 'copy' and o['pl']['p'] and 'ty' in o['pl']['p'][-1] else False:
+                            k = field_key(b, o['pl'])
+                            if k:
+                                inputs.add(k)
         symcache = {}
         for x in region:
             t = b.blocks[x]['term']
@@ -238,7 +276,7 @@ def chains(b):
         complete = True
         for vals in itertools.product([False, True], repeat=len(inputs)):
             env_in = dict(zip(inputs, vals))
-            flags, benv, bi, steps, done = {}, {}, nbi, 0, False
+            flags, benv, bi, steps, done, stuck = {}, {}, nbi, 0, False, False
             while steps < 300 and not done:
                 steps += 1
                 blk = b.blocks[bi]
@@ -247,6 +285,19 @@ def chains(b):
                         continue
                     dst, rv = st['pl']['l'], st['rv']
                     benv.pop(dst, None)
+                    if rv['k'] == 'agg' and rv.get('ak') == 'tuple':
+                        # `match (a, b) { .. }`: the scrutinee is a tuple of flags, dispatched field by field
+                        for i_, o in enumerate(rv['ops']):
+                            benv.pop((dst, i_), None)
+                            if o['k'] == 'const' and 'int' in o:
+                                benv[(dst, i_)] = bool(o['int'])
+                            elif o['k'] in ('copy', 'move'):
+                                if o['pl']['p']:
+                                    k = field_key(b, o['pl'])
+                                    if k in env_in:
+                                        benv[(dst, i_)] = env_in[k]
+                                elif o['pl']['l'] in benv:
+                                    benv[(dst, i_)] = benv[o['pl']['l']]
                     if rv['k'] == 'use':
                         o = rv['op']
                         if o['k'] == 'const' and 'int' in o and b.lty(dst).get('k') == 'bool':
@@ -271,8 +322,10 @@ def chains(b):
                             benv[dst] = {'BitAnd': xs[0] and xs[1], 'BitOr': xs[0] or xs[1], 'BitXor': xs[0] != xs[1],
                                          'Eq': xs[0] == xs[1], 'Ne': xs[0] != xs[1]}[rv['op']]
                 t = blk['term']
-                if t['k'] == 'call' and 'q' in t['callee'] and is_oo(callee_q(t)):
+                if t['k'] == 'call' and 'q' in t['callee'] and is_oo(callee_q(t)) and mine(t):
                     m = callee_q(t).split('::')[-1]
+                    if m == 'open':
+                        reached_opens.add(bi)
                     if m in BUILDER:
                         a = t['args'][1]
                         v = bool(a['int']) if a['k'] == 'const' and 'int' in a else benv.get(a['pl']['l'], '?') if a['k'] != 'const' else '?'
@@ -288,10 +341,16 @@ def chains(b):
                         break
                 if t['k'] == 'switch':
                     l = t['op']['pl']['l'] if t['op']['k'] in ('copy', 'move') else None
+                    if l is not None and t['op']['pl']['p']:
+                        pr = t['op']['pl']['p']
+                        l = (l, pr[0].get('i')) if len(pr) == 1 and pr[0]['k'] == 'field' else None
                     if l not in benv and symcache.get(l) is not None and sym_eval(symcache[l], env_in) != '?':
                         benv[l] = sym_eval(symcache[l], env_in)
                     if l not in benv:
-                        complete = False
+                        if named_builder:
+                            stuck = True        # the opens further on are covered by the re-use pass below (may-set flags)
+                        else:
+                            complete = False
                         break
                     v = int(benv[l])
                     tgt = dict(zip(t['vals'], t['targets'])).get(v, t['otherwise'])
@@ -301,11 +360,26 @@ def chains(b):
                     if not ns:
                         break
                     bi = ns[0]
-            if not done:
+            if not done and not stuck:
                 complete = False
-            table.append((env_in, {k for k, v in flags.items() if v is True}))
+            if done:
+                table.append((env_in, {k for k, v in flags.items() if v is True}))
         yield {'function': b.q, 'at': nt['loc'], 'inputs': ['.'.join(i) for i in inputs], 'table': table, 'path': path,
                'complete': complete, 'path_op': path_op}
+        # a builder kept in a variable and used again: every later open() sees whatever any earlier branch has set on it
+        if aliases:
+            setters = [(sbi, st_) for sbi, st_ in b.calls() if 'q' in st_['callee'] and is_oo(callee_q(st_)) and callee_q(st_).split('::')[-1] in BUILDER
+                       and st_['args'] and b.base_of(st_['args'][0]) and b.base_of(st_['args'][0])[0] in aliases]
+            for obi, ot in b.calls():
+                if 'q' in ot['callee'] and is_oo(callee_q(ot)) and callee_q(ot).endswith('::open') and obi not in reached_opens and ot['args'] and \
+                        b.base_of(ot['args'][0]) and b.base_of(ot['args'][0])[0] in aliases:
+                    eff = set()
+                    for sbi, st_ in setters:
+                        a = st_['args'][1]
+                        if not (a['k'] == 'const' and 'int' in a and not a['int']) and _reach(b, sbi, obi, None, limit=4000):
+                            eff.add(callee_q(st_).split('::')[-1])
+                    yield {'function': b.q, 'at': ot['loc'], 'inputs': [], 'table': [({}, eff)], 'path': path_term(b, ot['args'][1]), 'complete': True,
+                           'path_op': ot['args'][1], 'reused_builder': True}
 
 
 def run(facts, cg=None):
@@ -356,6 +430,9 @@ def run(facts, cg=None):
                     finding(b.q, 'append:' + str(ch['path']), 'output %s opened in append mode' % ch['path'])
                 if not force and not seed and 'create_new' not in eff:
                     finding(b.q, 'no-create_new:' + str(ch['path']), 'without --force-create/--seed-output an existing %s would be opened for writing (flags %s)' % (ch['path'], sorted(eff)))
+                if seed and not (eff & {'create', 'create_new'}) and any(k.endswith('seed_output') for k in fl):
+                    finding(b.q, 'seed-output-no-create:' + str(ch['path']), 'with --seed-output %s is opened without create (flags %s): when a first run died before '
+                            'the output existed, the documented re-run with --seed-output can never complete' % (ch['path'], sorted(eff)))
                 if 'truncate' in eff and not force:
                     finding(b.q, 'truncate:' + str(ch['path']), 'existing %s truncated without --force-create' % ch['path'])
                 if 'truncate' in eff and any(k.endswith('seed_output') for k in fl):
@@ -399,6 +476,38 @@ def run_cliflags(facts, cg):
                         findings.append({'rule': 'R-CLIFLAGS', 'key': 'R-CLIFLAGS|%s|%s.%s' % (b.q, st['rv']['adt'].split('::')[1], name), 'function': b.q,
                                          'what': 'option %s is not simply the command line flag --%s (%s): the refusal to touch an existing output can be lifted '
                                                  'without the user asking for it' % (name, CLI_FLAGS[name], show(term)[:100])})
+    # the pinned header checksum: what the user gave for --verify-header reaches the clone options or the command line is refused.
+    # A conversion that can turn a value that does not parse into "no pin" (ok(), and_then, filter, unwrap_or) lifts the check
+    # silently for exactly the inputs that are malformed.
+    LOSSY = ('ok', 'and_then', 'filter', 'unwrap_or', 'unwrap_or_default', 'unwrap_or_else', 'or', 'or_else', 'take', 'xor')
+    n_pin = 0
+    for b in facts.bodies.values():
+        if b.crate != 'bita' or b.generated:
+            continue
+        for bi in b.live:
+            for st in b.blocks[bi]['stmts']:
+                if not (st['k'] == 'assign' and st['rv']['k'] == 'agg' and st['rv'].get('adt') == 'bita::clone_cmd::Options'):
+                    continue
+                for name, o in zip(st['rv']['fields'], st['rv']['ops']):
+                    if name != 'header_checksum':
+                        continue
+                    n_pin += 1
+                    term = simplify(T.of_operand(b, o))
+                    names = [nd[1] for nd in walk(term) if nd[0] == 'call']
+                    for nd in walk(term):
+                        if nd[0] == 'closure' and nd[1] in facts.bodies:
+                            names += [callee_q(ct) for _, ct in facts.bodies[nd[1]].calls() if 'q' in ct['callee']]
+                    from_arg = any(nd[0] == 'call' and nd[1].endswith('ArgMatches::get_one') and any(isinstance(a, tuple) and a[0] == 'const' and 'verify-header' in str(a[1]) for a in nd[2])
+                                   for nd in walk(term))
+                    lossy = sorted({x.split('::')[-1] for x in names if x.split('::')[-1] in LOSSY and x.startswith(('core::option::', 'core::result::'))})
+                    instances.append({'rule': 'R-CLIFLAGS(pin)', 'function': b.q, 'at': st['loc'], 'from_verify_header': from_arg, 'lossy_conversions': lossy})
+                    if not from_arg or lossy:
+                        findings.append({'rule': 'R-CLIFLAGS', 'key': 'R-CLIFLAGS|%s|pin-can-be-lost' % b.q, 'function': b.q,
+                                         'what': 'the pinned header checksum handed to the clone is %s: a --verify-header value can end up as "no pin" and the '
+                                                 'check it asks for is skipped without a word' % ('not the parsed --verify-header argument' if not from_arg else
+                                                                                                   'passed through ' + ', '.join(lossy))})
+    if n_pin < 1:
+        findings.append({'rule': 'R-CLIFLAGS', 'key': 'R-CLIFLAGS|-|floor-pin', 'function': '-', 'what': 'the header_checksum option of clone was not found in the argument parser (cannot decide)'})
     if n < 3:
         findings.append({'rule': 'R-CLIFLAGS', 'key': 'R-CLIFLAGS|-|floor', 'function': '-', 'what': 'the option structs of clone / compress were not found in the argument parser (cannot decide)'})
     return instances, findings
